@@ -35,11 +35,27 @@ func contains(ids []int, x int) bool {
 func drain(l *go9p.Logger, lastID int) bool {
 	deadline := time.Now().Add(2 * time.Second)
 	for time.Now().Before(deadline) {
-		if contains(fltIds(l.Filter(nil, 0)), lastID) {
+		r, ok := filterT(l, nil, 0)
+		if !ok {
+			return false
+		}
+		if contains(fltIds(r), lastID) {
 			return true
 		}
 	}
 	return false
+}
+
+// Filter with a watchdog: a Filter that never returns is a verdict, not a stuck harness
+func filterT(l *go9p.Logger, ow interface{}, ty int) ([]*go9p.Log, bool) {
+	ch := make(chan []*go9p.Log, 1)
+	go func() { ch <- l.Filter(ow, ty) }()
+	select {
+	case r := <-ch:
+		return r, true
+	case <-time.After(3 * time.Second):
+		return nil, false
+	}
 }
 
 func owStr(ow int) string {
@@ -81,7 +97,16 @@ func modeLog(tier string, args []string) {
 		cnt := 0
 		last := -1
 		nlog := 0
+		hung := false
+		type keptRes struct {
+			res []*go9p.Log
+			ids []int
+		}
+		var kept []keptRes
 		emitF := func() {
+			if hung {
+				return
+			}
 			ow := rng.Intn(4) - 1
 			ty := rng.Intn(4)
 			if last >= 0 && !drain(l, last) {
@@ -90,7 +115,16 @@ func modeLog(tier string, args []string) {
 				stat("log.drain_timeout", 1)
 				return
 			}
-			ids := fltIds(l.Filter(ownerArg(ow), ty))
+			fr, ok := filterT(l, ownerArg(ow), ty)
+			if !ok {
+				sb.WriteString(" H")
+				cnt++
+				hung = true
+				stat("log.filter_hung", 1)
+				return
+			}
+			ids := fltIds(fr)
+			kept = append(kept, keptRes{fr, append([]int{}, ids...)})
 			fmt.Fprintf(&sb, " F %s %d %d", owStr(ow), ty, len(ids))
 			for _, id := range ids {
 				fmt.Fprintf(&sb, " %d", id)
@@ -101,7 +135,7 @@ func modeLog(tier string, args []string) {
 				stat("log.filters_after_wrap", 1)
 			}
 		}
-		for i := 0; i < nops; i++ {
+		for i := 0; i < nops && !hung; i++ {
 			if rng.Intn(5) == 0 {
 				emitF()
 			}
@@ -117,14 +151,36 @@ func modeLog(tier string, args []string) {
 		}
 		emitF()
 		emitF()
+		// results handed out earlier still say what they said then
+		if !hung {
+			same := 1
+			for _, k := range kept {
+				now := fltIds(k.res)
+				if len(now) != len(k.ids) {
+					same = 0
+					break
+				}
+				for i := range now {
+					if now[i] != k.ids[i] {
+						same = 0
+					}
+				}
+			}
+			fmt.Fprintf(&sb, " K %d", same)
+			cnt++
+		}
 		emit("SEQ %d %d%s", capn, cnt, sb.String())
+		if stats["log.filter_hung"] >= 3 {
+			break
+		}
 		stat("log.seq_cases", 1)
 		stat("log.logs", nlog)
 		if nlog > capn {
 			stat("log.seq_cases_wrapped", 1)
 		}
 	}
-	for c := 0; c < nconc && stats["log.drain_timeout"] < 5; c++ {
+	// a Filter that never returns leaves a spinning logger goroutine behind: no point in going on
+	for c := 0; c < nconc && stats["log.drain_timeout"] < 5 && stats["log.filter_hung"] == 0; c++ {
 		capn := 1 + rng.Intn(64)
 		nprod := 2 + rng.Intn(3)
 		l := go9p.NewLogger(capn)
